@@ -18,3 +18,9 @@ CHECKS["C01"] = dict(
     text="resolve_runtime_value = Resolve(config > context > default) and KeyError iff unresolvable; _default_for against the metadata definition; _get_processor_parameters (loop invariant: parameters = Resolve on the names seen) ; _DataNode._process (type gate, then Logic on the resolved parameters, context object preserved, failure exactly at the prescribed point with the processor not run); probe node (data passes through, ctx' = ctx[key := result]); validating observer and DataOperation notifier (KeyError iff undeclared, nothing else written); generated rename/delete processors (a present non-None value is moved/removed, only declared keys touched). Arbitrary configs/contexts/name lists, no bound.",
     note="Not under contract yet: SemantivaOrchestrator.execute node loop (fold of node semantics), slicers, sweep wrappers, IO adapters, template processor, string->class resolution. Processor logic is uninterpreted (LogicOut/LogicFails).",
     ref="DESIGN.md section 7 (C01)")
+CHECKS["C08"] = dict(
+    level="proof",
+    technique="contract-based deductive verification of source select/rename (loop invariants over an arbitrary column order, z3); expansion order only by a bounded run-time-contract enumeration (labelled bounded)",
+    text="_load_and_process_source: for arbitrary column mappings, select lists and rename tables the result is exactly the selected columns mapped through the rename table with values preserved, and a missing selected column or any collision after rename is rejected (both loops cut by invariants). expand_run_space/_expand_entries are NOT proved: a bounded stand-in compares them with the documented Expand function over small specifications (bound in evidence) and measures materialisation under an exceeded cap.",
+    note="Proved part assumes the file system, parsers and SHA-256 abstract. The bounded part is exploration, not proof. Known finding C08-KF1 (cap checked after materialising a block's product) is open.",
+    ref="DESIGN.md section 7 (C08)")
